@@ -177,12 +177,104 @@ def run(run):
             if bad:
                 run.violation(bad, dict(nr=nr, nfunc=nfunc, cols=cols, got=dict(evals=(np.asarray(evals) / fk).tolist(), oord=[int(x) for x in oord],
                                                                                  nord=int(nord), npo=[int(x) for x in npo])), c)
+    # ---- the Cartesian side of the KL pipeline (spec/KLGeom.tla): aperture, ring and quadrant of every pixel; make_kl's dataflow
+    r4 = run.tlc("KLGeom", "KLGeom.cfg", require_actions=("RowStep",), timeout=1200)
+    if r4.violated:
+        raise core.MachineryError("KLGeom.tla violates its own invariant %s" % r4.violated)
+    aps = {}
+    with np.errstate(all="ignore"):
+        for c in r4.printed:
+            kinds["klgeom"] = kinds.get("klgeom", 0) + 1
+            run.traces += 1
+            if kinds["klgeom"] == 9:
+                run.sample(c, limit=6)
+            ncp, mar, nr, ri, npp = c["ncp"], c["mar"], c["nr"], c["p"] / c["q"], 8
+            try:
+                g = kl.pcgeom(nr, npp, ncp, ri, mar)
+            except Exception as ex:  # noqa
+                run.violation("pcgeom:raises", dict(error=repr(ex)[:160], ncp=ncp, mar=mar, nr=nr, ri=ri), c)
+                continue
+            ap, tie = np.array(c["ap"], bool), np.array(c["tie"], bool)
+            aps[(ncp, mar, c["p"], c["q"])] = (ap, tie)
+            got_ap = np.asarray(g["ap"], bool)
+            if got_ap.shape != ap.shape or np.any((got_ap != ap) & ~tie):
+                run.violation("pcgeom:aperture-is-the-closed-annulus", dict(ncp=ncp, mar=mar, ri=ri, got=got_ap.astype(int).tolist()), c)
+                continue
+            cr, cp = np.asarray(g["cr"], float), np.asarray(g["cp"], float)
+            near = np.abs(cr - np.round(cr)) < 1e-9
+            judged = ~np.array(c["rtie"], bool) & ~near
+            if np.any((np.floor(cr).astype(int) != np.array(c["ring"])) & judged):
+                run.violation("pcgeom:equal-area-ring-of-a-pixel", dict(ncp=ncp, mar=mar, ri=ri, nr=nr, got=np.floor(cr).astype(int).tolist()), c)
+            q = np.array(c["quad"])
+            if np.any((np.floor(4.0 * cp / npp).astype(int) != q) & (q >= 0)):
+                run.violation("pcgeom:quadrant-of-a-pixel", dict(ncp=ncp, mar=mar, got=np.floor(4.0 * cp / npp).astype(int).tolist()), c)
+            if cr.min() < 1e-3 - 1e-12 or cr.max() > nr - 1.001 + 1e-12 or cp.min() < 1e-3 - 1e-12 or cp.max() > npp - 1.001 + 1e-12:
+                run.violation("pcgeom:interpolation-coordinates-leave-the-polar-grid", dict(cr=[float(cr.min()), float(cr.max())], cp=[float(cp.min()), float(cp.max())]), c)
+            # pol2car is bilinear interpolation at (cr, cp): it reproduces a radial ramp and an azimuthal ramp exactly
+            ramp_r = np.arange(nr, dtype=float)[:, None] * np.ones((1, npp))
+            ramp_a = np.ones((nr, 1)) * np.arange(npp, dtype=float)[None, :]
+            keep = (ramp_r.copy(), cr.copy(), cp.copy(), got_ap.copy())
+            if not np.allclose(kl.pol2car(g, ramp_r), cr, rtol=0, atol=1e-12) or not np.allclose(kl.pol2car(g, ramp_a), cp, rtol=0, atol=1e-12):
+                run.violation("pol2car:bilinear-at-(cr,cp)", dict(ncp=ncp, mar=mar, nr=nr), c)
+            mixed = ramp_r * 3.0 - ramp_a
+            if not np.array_equal(kl.pol2car(g, mixed, mask=True), kl.pol2car(g, mixed) * got_ap):
+                run.violation("pol2car:mask-is-the-aperture", dict(ncp=ncp, mar=mar), c)
+            if not (np.array_equal(ramp_r, keep[0]) and np.array_equal(g["cr"], keep[1]) and np.array_equal(g["cp"], keep[2]) and np.array_equal(g["ap"], keep[3])):
+                run.violation("pol2car:geometry-or-input-modified", dict(ncp=ncp, mar=mar), c)
+            # the polar sample points in pixel coordinates: radius ff * r about the frame centre
+            ff, hw = 0.5 * (ncp - 2 * mar), (ncp - 1) / 2.0
+            rr = np.asarray(kl.radii(nr, npp, ri), float)
+            if not np.allclose((np.asarray(g["px"]) - hw) ** 2 + (np.asarray(g["py"]) - hw) ** 2, (ff * rr) ** 2, rtol=1e-12, atol=1e-12):
+                run.violation("pcgeom:polar-points-in-pixel-coordinates", dict(ncp=ncp, mar=mar), c)
+            if g["ncp"] != ncp or g["ncmar"] != mar:
+                run.violation("pcgeom:records-its-parameters", dict(ncp=g["ncp"], ncmar=g["ncmar"]), c)
+            if kinds["klgeom"] % 40 == 1:
+                g2 = kl.set_pctr(dict(nr=nr, np=npp, ri=ri), ncp=ncp, ncmar=mar)
+                if any(not np.array_equal(np.asarray(g2[k_], float), np.asarray(g[k_], float), equal_nan=True) for k_ in g):
+                    run.violation("set_pctr:is-pcgeom-of-the-basis-parameters", dict(ncp=ncp, mar=mar), c)
+    # make_kl: frames = pol2car(geometry of (dim, margin 0), i-th polar function) times the aperture; pupil = aperture; variances = the basis'
+    for (dim, p_, q_, nr_, nmax) in ((16, 1, 4, 8, 6), (13, 1, 2, 8, 5), (12, 3, 5, 5, 4)):
+        ri = p_ / q_
+        import contextlib, io
+        with np.errstate(all="ignore"), contextlib.redirect_stdout(io.StringIO()):
+            klm, var, pupil, base = kl.make_kl(nmax, dim, ri=ri, nr=nr_)
+            klu, var_u, pupil_u, base_u = kl.make_kl(nmax, dim, ri=ri, nr=nr_, mask=False)
+            pc1 = kl.set_pctr(base, ncp=dim, ncmar=0)
+        run.traces += 1
+        kinds["make_kl"] = kinds.get("make_kl", 0) + 1
+        ap, tie = aps[(dim, 0, p_, q_)]
+        case = dict(kind="make_kl", dim=dim, ri=[p_, q_], nr=nr_, nmax=nmax)
+        if klm.shape != (nmax, dim, dim) or not np.all(np.isfinite(klm)):
+            run.violation("make_kl:shape-or-finiteness", dict(shape=list(klm.shape)), case)
+            continue
+        if np.any((np.asarray(pupil, bool) != ap) & ~tie) or not np.array_equal(pupil, np.asarray(pc1["ap"], float)):
+            run.violation("make_kl:pupil-is-the-aperture-of-the-frame", dict(got=np.asarray(pupil).astype(int).tolist()), case)
+        if np.any(klm[:, ~np.asarray(pupil, bool)] != 0):
+            run.violation("make_kl:modes-vanish-outside-the-pupil", {}, case)
+        if not np.array_equal(klm, klu * pupil[None]):
+            run.violation("make_kl:mask-only-multiplies-by-the-pupil", {}, case)
+        for i in range(nmax):
+            sf = np.asarray(kl.gkl_sfi(base, i), float)
+            outer = np.outer(base["rabas"][:, i], base["azbas"][base["ord"][i], :])
+            if sf.shape != outer.shape or not np.allclose(sf, outer, rtol=1e-13, atol=0):
+                run.violation("gkl_sfi:radial-times-azimuthal", dict(i=i), case)
+                break
+            if not np.array_equal(klu[i], kl.pol2car(pc1, sf)):
+                run.violation("make_kl:frame-i-is-function-i", dict(i=i), case)
+                break
+        if not np.array_equal(np.asarray(var), np.asarray(base["evals"])) or base["nfunc"] != nmax or base["nr"] != nr_ or base["np"] != int(2 * np.pi * nr_):
+            run.violation("make_kl:variances-and-basis-record", dict(nfunc=base["nfunc"], nr=base["nr"], np=base["np"]), case)
+    try:
+        kl.make_kl(4, 12, ri=0.0, nr=5)
+        run.violation("make_kl:full-aperture-must-be-refused", {}, dict(kind="make_kl", ri=0))
+    except ValueError:
+        pass
     from harness import protocol
     kinds["protocol"] = protocol.check(run, ips, rng, 3000)
     from aotools.turbulence import slopecovariance as sc_
     kinds["covprotocol"] = protocol.check_cov(run, sc_, rng, 1200)
     run.aux["cases_by_kind"] = kinds
-    run.bounds = dict(cfg="Growth.cfg", kl_cfg="GrowthKL.cfg", klselect_cfg="KLSelect.cfg", klselect_cases_replayed=len(cases), protocol_cfg="ObjProtocol.cfg",
+    run.bounds = dict(cfg="Growth.cfg", kl_cfg="GrowthKL.cfg", klselect_cfg="KLSelect.cfg", klgeom_cfg="KLGeom.cfg", klselect_cases_replayed=len(cases), protocol_cfg="ObjProtocol.cfg",
                       protocol_histories_replayed=kinds["protocol"])
     run.assumptions.append("specification growth beyond the listed properties; not a claimed check")
 
